@@ -5,6 +5,7 @@ package main
 
 import (
 	"bytes"
+	"encoding/binary"
 	"fmt"
 	"reflect"
 	"sort"
@@ -38,7 +39,7 @@ func mutators() []mop {
 		{"SetWarnings(nil)", func(f *frame.Frame) { f.SetWarnings(nil) }, 1},
 		{"SetWarnings(empty)", func(f *frame.Frame) { f.SetWarnings([]string{}) }, 1},
 		{"SetWarnings(1)", func(f *frame.Frame) { f.SetWarnings([]string{"w"}) }, 1},
-		{"SetTracingId(nil)", func(f *frame.Frame) { f.SetTracingId(nil) }, 1},
+		{"SetTracingId(nil)", func(f *frame.Frame) { f.SetTracingId(nil) }, 0}, // clearing is legal on every frame: "removed along with the corresponding header flag"
 		{"SetTracingId(id)", func(f *frame.Frame) { u := uuid; f.SetTracingId(&u) }, 1},
 		{"RequestTracingId(true)", func(f *frame.Frame) { f.RequestTracingId(true) }, 2},
 		{"RequestTracingId(false)", func(f *frame.Frame) { f.RequestTracingId(false) }, 2},
@@ -47,10 +48,10 @@ func mutators() []mop {
 
 // reference state of the optional parts, updated by the documented meaning of each mutator
 type refState struct {
-	payload, warnings   int // 0 nil, 1 empty, 2 non-empty
-	tracingId           bool
-	tracingRequested    bool
-	compress            bool
+	payload, warnings int // 0 nil, 1 empty, 2 non-empty
+	tracingId         bool
+	tracingRequested  bool
+	compress          bool
 }
 
 func (r refState) next(op string, compressible bool) refState {
@@ -73,6 +74,7 @@ func (r refState) next(op string, compressible bool) refState {
 		r.warnings = 2
 	case "SetTracingId(nil)":
 		r.tracingId = false
+		r.tracingRequested = false // the flag is shared: clearing the tracing id clears the flag
 	case "SetTracingId(id)":
 		r.tracingId = true
 	case "RequestTracingId(true)":
@@ -101,6 +103,7 @@ func main() {
 	var states, trans, validated int64
 	var mu sync.Mutex
 	lz := fcheck.Codec(primitive.CompressionLz4)
+	lzRaw := fcheck.RawCodec(primitive.CompressionLz4)
 	type task struct {
 		v    gen.V
 		name string
@@ -191,6 +194,20 @@ func main() {
 				}
 				if d := gen.Equal(orig, got, fcheck.Ignore); d != "" {
 					bad("roundtrip-mismatch", "round trip differs at %s", d)
+				}
+				// a peer reads the header and then exactly the declared number of body bytes
+				hl := 9
+				if t.v == gen.V2 {
+					hl = 8
+				}
+				if declared := int(int32(binary.BigEndian.Uint32(buf.Bytes()[hl-4 : hl]))); declared != buf.Len()-hl {
+					bad("header-body-length", "header declares a body of %d bytes, %d were emitted", declared, buf.Len()-hl)
+				} else if rf, err := lzRaw.DecodeRawFrame(bytes.NewReader(buf.Bytes())); err != nil {
+					bad("decode-error", "encoded frame does not decode as a raw frame: %v", err)
+				} else if got2, err := lzRaw.ConvertFromRawFrame(rf); err != nil {
+					bad("decode-error", "raw frame does not convert: %v", err)
+				} else if d := gen.Equal(orig, got2, fcheck.Ignore); d != "" {
+					bad("roundtrip-mismatch", "round trip through DecodeRawFrame+ConvertFromRawFrame differs at %s", d)
 				}
 				lv++
 			}
